@@ -230,6 +230,8 @@ def to_model(data_file: typing.IO, _config = None, progress_callback=lambda _: N
         Fraction(int(m.group('end_ms')), 1000)
         )
 
+      subtitle_text = ""
+
       state = _State.TEXT
 
       continue
@@ -237,6 +239,12 @@ def to_model(data_file: typing.IO, _config = None, progress_callback=lambda _: N
     if state in (_State.TEXT, _State.TEXT_MORE):
 
       if line is None or _EMPTY_RE.fullmatch(line):
+
+        if state is _State.TEXT:
+          # cue without text
+          state = _State.COUNTER
+          continue
+
         subtitle_text = subtitle_text.strip('\r\n')\
           .replace(r"\n\r", "\n")\
           .replace(r"{bold}", r"<bold>")\
